@@ -167,6 +167,21 @@ def oracle(case, obs=None, full=None):
         return json.dumps(e)
     if m > len(full) or any(norm(a) != norm(b) for a, b in zip(ev, full[:m])):
         return f"{case['dmg']}: returned events are not a prefix of the file's events (partial or mis-attributed particles)"
+    # the same against the document itself (what the loader makes of the undamaged file is not taken on trust): event j of the
+    # returned list holds exactly the particle lines the file has for its j-th event, every column in its data_ slot
+    docev = case["doc"]["events"]
+    if m > len(docev):
+        return f"{case['dmg']}: {m} events are returned, the undamaged file has {len(docev)}"
+    for j in range(m):
+        rows = docev[j]["rows"]
+        if len(ev[j]) != len(rows):
+            return f"{case['dmg']}: returned event {j} holds {len(ev[j])} particles, the file has {len(rows)} lines for it (partial or mis-attributed)"
+        for r, (slots, row) in enumerate(zip(ev[j], rows)):
+            exp = J.expected_slots(row) if case["kind"] == "jet" else G.expected_slots(case["doc"], row)
+            for sl, v in exp.items():
+                if slots[sl] != v:
+                    return (f"{case['dmg']}: returned event {j} particle {r}: data_[{sl}] = {slots[sl]!r}, line {row!r} of the "
+                            f"undamaged file says {v!r}")
     # every returned event must have all its particle lines before the cut
     lines = base.split("\n")
     pos = 0
